@@ -35,7 +35,7 @@ CONFIG = dict(
     required_counters=("steps", "probes", "twin_probes", "context_exits_compared", "removals_checked"),
 )
 
-OPS = ["arm", "ml", "ml+", "remove", "deact", "enter", "leave", "leave_exc"]     # deact: the documented twin of remove
+OPS = ["arm", "ml", "ml+", "remove", "deact", "enter", "enter_shared", "leave", "leave_exc"]     # deact: the documented twin of remove
 FLAGGED = b"cvp_sink\nhit\n(S'probe'\ntR."
 ADDITION_PROBE = b"ccollections\nCounter\n)R."      # allowed exactly while the 'ml+' additions are in force
 HOSTILE = (FLAGGED + b"trailing", b"\x00" + FLAGGED, b"\n" + FLAGGED, b"\xff" + FLAGGED, b" " + FLAGGED,
@@ -46,7 +46,7 @@ NAMES = ("pickle.load", "pickle.loads", "_pickle.load", "_pickle.loads")
 def valid(hist):
     depth = 0
     for op in hist:
-        if op == "enter":
+        if op in ("enter", "enter_shared"):
             depth += 1
             if depth > 3:
                 return False
@@ -58,7 +58,7 @@ def valid(hist):
 
 
 def histories(ctx):
-    L = {"quick": 5, "thorough": 7}[ctx.tier]
+    L = {"quick": 5, "thorough": 6}[ctx.tier]
     idx = 0
     for n in range(1, L + 1):
         for hist in itertools.product(OPS, repeat=n):
@@ -75,13 +75,13 @@ def histories(ctx):
         hist, depth = [], 0
         for _ in range(40):
             op = rng.choice(OPS)
-            if op == "enter" and depth >= 3:
+            if op in ("enter", "enter_shared") and depth >= 3:
                 continue
             if op in ("leave", "leave_exc"):
                 if depth == 0:
                     continue
                 depth -= 1
-            if op == "enter":
+            if op in ("enter", "enter_shared"):
                 depth += 1
             hist.append(op)
         yield hist
@@ -159,13 +159,14 @@ def run_history(ctx, mods, hist):
     fickling, hook, loader, U = mods
     agg = ctx.agg
     key = h(",".join(hist).encode())
-    nontrivial = "enter" in hist or sum(1 for o in hist if o in ("arm", "ml", "ml+")) >= 2
+    nontrivial = "enter" in hist or "enter_shared" in hist or sum(1 for o in hist if o in ("arm", "ml", "ml+")) >= 2
     # model: per-binding protection, stack of saved (model, identities, behaviour)
     model = ["orig"] * 4
     stack = []
     cms = []
     steps = []
     w = {"history": hist}
+    shared_cm = fickling.check_safety()
     try:
         for op in hist:
             if op == "arm":
@@ -183,9 +184,11 @@ def run_history(ctx, mods, hist):
                 else:
                     hook.deactivate_safe_ml_environment()
                 model = ["orig"] * 4
-            elif op == "enter":
+            elif op in ("enter", "enter_shared"):
                 stack.append((list(model), bindings(), probe_all(U)))
-                cm = fickling.check_safety()
+                # "enter_shared": one context-manager object, created before anything else happened in this history,
+                # entered again and again (also while it is already entered)
+                cm = fickling.check_safety() if op == "enter" else shared_cm
                 cm.__enter__()
                 cms.append(cm)
                 model[0] = "checked"
